@@ -40,14 +40,7 @@ static inline bool iora_strstack_top_ne(const iora_strstack *s, const iora_sv *i
   return ne;
 }
 
-/* ---- parser invariant of the token layer ----
- * depth == stack size; depth <= maxDepth; each open element and each produced token consumed at least one byte (so neither counter can wrap);
- * the witness entry is a non-empty slice of the input */
-#define XML_TAG_INV(s) ((s)->_depth == (s)->_elementStack.n && (s)->_depth <= (s)->_opt.maxDepth && (s)->_depth <= (s)->_cur && (s)->_producedTokens <= (s)->_cur \
-  && ((s)->_elementStack.n > GL ==> ((s)->_elementStack.wit_n >= 1 && (s)->_elementStack.wit_off <= (s)->_input.n && (s)->_elementStack.wit_n <= (s)->_input.n - (s)->_elementStack.wit_off)))
-#define XML_TAG_PRE(s) (XML_PRE(s) && XML_TAG_INV(s))
-/* content of a slice v of the input at index k, through the input pointer (slices returned by replaced contracts are only known by offset) */
-#define XML_SLICE_BYTE(s, v, k) XML_AT(s, (size_t)__CPROVER_POINTER_OFFSET((v).p) + (k))
+#include "contracts.h"
 
 /* ---- callee contracts (replace) : conjunctions of groups proved in unit xml_cursor ---- */
 DECL_skipSpaces(Parser_skipSpaces_c, SKIP_SAFE)
